@@ -444,6 +444,9 @@ def family_affprod():
         ('(2x-1)*(x+1)', ('mul', A(k(2, X), N(-1)), A(X, N(1)))), ('(x+1)*(b-1)', ('mul', A(X, N(1)), A(B, N(-1)))),
         ('(x+y)*(x-y)', ('mul', A(X, Y), ('sub', X, Y))), ('(y+1)*y', ('mul', A(Y, N(1)), Y)), ('(x+b)*(x+b)', ('mul', A(X, B), A(X, B))),
         ('(x+1)*x*b', ('mul', ('mul', A(X, N(1)), X), B)),
+        # a constant times (quadratic + constant), in both operand orders
+        ('(x*b+2)*3', ('mul', A(('mul', X, B), N(2)), N(3))), ('3*(x*b+2)', ('mul', N(3), A(('mul', X, B), N(2)))),
+        ('(x*x+2)*3', ('mul', A(('pow2', X), N(2)), N(3))), ('(x*y+1.5)*(-2)', ('mul', A(('mul', X, Y), N(1.5)), N(-2))),
     ]
     for nm, e in prods:
         for rn, m in roots_numeric('affprod ' + nm, e, V3):
